@@ -174,14 +174,15 @@ impl RK4 {
             for i in 0..n {
                 yt[i] = y[i] + h * A43 * k3[i];
             }
-            f.ode(x + C4 * h, &yt, &mut k4);
+            // The last step ends at xend itself: x + (xend - x) can miss it by a rounding error
+            let xph = if last { xend } else { x + C4 * h };
+            f.ode(xph, &yt, &mut k4);
 
             xold = x;
             yt.copy_from_slice(&y);
 
             // Update solution
-            // The last step lands on xend itself: x + (xend - x) can miss it by a rounding error
-            x = if last { xend } else { x + h };
+            x = xph;
             for i in 0..n {
                 y[i] += h * (B1 * k1[i] + B2 * k2[i] + B3 * k3[i] + B4 * k4[i]);
             }
